@@ -49,7 +49,9 @@ PRODUCER_FAMILIES = ("bpsk", "qpsk", "psk", "qam", "pam", "oqpsk", "pi4qpsk", "d
 
 
 def _producer_cfgs(tier):
-    return mods.catalogue(tier, families=PRODUCER_FAMILIES)
+    base = mods.catalogue(tier, families=PRODUCER_FAMILIES)
+    # pi/4-QPSK has a separate code path for un-batched (1-D) input: 3 symbols = 6 bits (> 4 elements, so read as bits)
+    return base + [Cfg(*c, "1d") for c in base if c[0] == "pi4qpsk"]
 
 
 def _concrete_bits(ctx, name, n):
@@ -61,7 +63,7 @@ def _concrete_bits(ctx, name, n):
     return ctx.tensor(np.asarray(vals, dtype=object)), vals
 
 
-def _transmit(ctx, cfg, sc, nsym, concretise=False):
+def _transmit(ctx, cfg, sc, nsym, concretise=False, unbatched=False):
     """returns (bits tensor, bit payload list, llr payload, map from llr position -> bit position or None)"""
     b = sc.b
     nbits = nsym * b
@@ -69,7 +71,7 @@ def _transmit(ctx, cfg, sc, nsym, concretise=False):
         bits, vals = _concrete_bits(ctx, "bits", nbits)
     else:
         # 1-D inputs of <= 4 values are read as symbol indices by Pi4QPSKModulator: pi/4-QPSK gets a (1, nbits) batch
-        bits = ctx.bits("bits", (1, nbits) if cfg[0] == "pi4qpsk" else (nbits,))
+        bits = ctx.bits("bits", (1, nbits) if (cfg[0] == "pi4qpsk" and not unbatched) else (nbits,))
         vals = list(P(bits).reshape(-1))
     return bits, vals, bits
 
@@ -101,12 +103,15 @@ def _bit_map(cfg, b, nsym):
     timeout_ms=60000,
 )
 def producer_polarity(ctx, cfg):
+    unbatched = cfg[-1] == "1d"
+    if unbatched:
+        cfg = Cfg(*cfg[:-1])
     sc = Scheme(cfg)
     fam = cfg[0]
     memory = fam in ("dpsk", "dbpsk", "dqpsk", "oqpsk", "pi4qpsk")
     nsym = (3 if sc.n <= 4 else 2) if memory else (2 if sc.n <= 16 else 1)
     concretise = fam in ("dpsk", "dbpsk", "dqpsk")  # z/(|z|+1e-9) and the modulator's cumulative product are run on concrete symbols
-    bits, vals, x = _transmit(ctx, cfg, sc, nsym, concretise)
+    bits, vals, x = _transmit(ctx, cfg, sc, nsym, concretise, unbatched)
     sc.mod.eval()
     sc.dem.eval()
     tx = ctx.call(sc.mod.forward, x)
@@ -151,6 +156,10 @@ def build_consumer(name):
         return T.LLRThresholder(output_type=T.OutputType.SOFT)
     if name == "mindist":
         return T.MinDistanceThresholder(input_type=LLR)
+    if name.startswith("mindist_"):
+        # custom reference LLRs (any order, two or four points, symmetric about 0): the decided bit is still [llr < 0]
+        pts = {"desc": [2.0, -2.0], "wide": [-6.0, 6.0], "four": [-4.0, -1.0, 1.0, 4.0], "fourdesc": [4.0, 1.0, -1.0, -4.0]}[name.split("_", 1)[1]]
+        return T.MinDistanceThresholder(reference_points=torch.tensor(pts), input_type=LLR)
     if name == "weighted":
         return T.WeightedThresholder(weights=1.0, threshold=0.5, input_type=LLR)
     if name == "weighted_vec":
@@ -172,7 +181,7 @@ def build_consumer(name):
     raise ValueError(name)
 
 
-SIGN_CONSUMERS = ["fixed", "llr", "llr_scaled", "mindist", "weighted", "weighted_vec", "ensemble_majority", "ensemble_weighted", "ensemble_any", "ensemble_all", "hysteresis_nodz", "llr_to_bits", "sign_to_bin"]
+SIGN_CONSUMERS = ["fixed", "llr", "llr_scaled", "mindist", "mindist_desc", "mindist_wide", "mindist_four", "mindist_fourdesc", "weighted", "weighted_vec", "ensemble_majority", "ensemble_weighted", "ensemble_any", "ensemble_all", "hysteresis_nodz", "llr_to_bits", "sign_to_bin"]
 
 
 def _llr_input(ctx, shape):
@@ -191,7 +200,7 @@ def _sign_cfgs(tier):
     out = []
     for n in SIGN_CONSUMERS:
         out.append(Cfg(n, "n3"))
-        if n not in ("weighted_vec",):
+        if n not in ("weighted_vec", "mindist_four", "mindist_fourdesc"):  # four reference points x four elements exceeds the solver budget
             out.append(Cfg(n, "2x2"))
     return out
 
